@@ -312,7 +312,7 @@ def lle_call(w, cfg):
                 w.ensure('no top chemical: solver labelling kept', straight)
             for i, ID in enumerate(sIDs):
                 w.ensure(f'solver saw the normalised feed z[{ID}]', w.eq(z[i] * F, before['l', ID] + before['L', ID]))
-        if top is not None and top in IDs:
+        if top is not None and top in IDs and stub.calls:
             w.ensure(f'top chemical {top}: mass fraction in L >= in l', top_rule(w, s, now, top))
             other = next(i for i in IDs if i != top)
             w.canary(f'canary: {other} also has its larger mass fraction in L', top_rule(w, s, now, other))
